@@ -69,7 +69,7 @@ func shuffleYAMLNode(n *yaml.Node, rng *rand.Rand) {
 
 func c02Event(src, style, format, entry, alg string, interpolate bool, seed int64) obj {
 	ev := obj{"src": src, "style": style, "format": format, "entry": entry, "alg": alg, "interpolate": interpolate, "rot": seed,
-		"failed": "", "steps": []any{}, "nbefore": 0, "panic": false}
+		"failed": "", "steps": []any{}, "nbefore": 0, "panic": false, "probe": ""}
 	rng := newRand(seed, "c02")
 	ctx := context.Background()
 	repo := "https://example.com/repo.git"
@@ -80,7 +80,7 @@ func c02Event(src, style, format, entry, alg string, interpolate bool, seed int6
 			panic("driver: the generated document does not parse cleanly: " + err.Error() + "\n" + src)
 		}
 		if interpolate {
-			env := &foldingEnv{m: map[string]string{"HOME": "/home/x", "A": "1", "C02_RENAME": "C02_TARGET"}}
+			env := &foldingEnv{m: map[string]string{"HOME": "/home/x", "A": "1", "C02_RENAME": "C02_TARGET", "C02_FIELD": "env"}}
 			if err := pl.Interpolate(env, false); err != nil {
 				ev["failed"] = "skip:interpolate" // not every generated string is valid interpolation syntax
 				return
@@ -219,8 +219,20 @@ func runC02(args []string) {
 	if cf := fl.str("cases", ""); cf != "" {
 		readNDJSON(cf, func(_ int, c obj) {
 			seed, _ := c["rot"].(json.Number).Int64()
-			emit(c02Event(c["src"].(string), c["style"].(string), c["format"].(string), c["entry"].(string), c["alg"].(string), c["interpolate"].(bool), seed))
+			ev := c02Event(c["src"].(string), c["style"].(string), c["format"].(string), c["entry"].(string), c["alg"].(string), c["interpolate"].(bool), seed)
+			if pid, _ := c["probe"].(string); pid != "" {
+				ev["probe"] = pid
+			}
+			emit(ev)
 		})
+	} else if fl.str("probes", "") != "" {
+		// fixed inputs for defects recorded in known_findings.json
+		// F26: a step-level key that interpolation renames to the name of a typed field which the step does not set
+		for _, format := range []string{"json", "yaml"} {
+			ev := c02Event(`{"steps":[{"command":"a","${C02_FIELD}":{"A":"b"}}]}`, "json", format, "parse", "EdDSA", true, 1)
+			ev["probe"] = "F26-key-renamed-to-field-name"
+			emit(ev)
+		}
 	} else {
 		rng := newRand(int64(fl.int("seed", 1)), "c02gen")
 		algs := []string{"EdDSA", "ES512", "PS512", "ES256"}
